@@ -237,6 +237,14 @@ class Facts:
                 return False
             if self.atoms.get(("lt", b, a)) is True:
                 return False
+            # x < y - k (checked unsigned subtraction, k >= 0)  =>  x < y  and  x + k < y
+            if not is_int(b):
+                for k in (1, 2):
+                    if self.atoms.get(("lt", a, ("bin", "Sub", b, Int(k)))) is True:
+                        return True
+                if isinstance(a, tuple) and len(a) == 4 and a[0] == "bin" and a[1] == "Add" and is_int(a[3]) and 0 <= a[3][1] <= 2:
+                    if self.atoms.get(("lt", a[2], ("bin", "Sub", b, a[3]))) is True:
+                        return True
             # nothing (unsigned) is below a quantity known to be 0
             if not is_int(b) and not _maybe_signed(a) and not _maybe_signed(b) and self.known_zero(b):
                 return False
